@@ -428,25 +428,15 @@ Section FirstLastLaws.
       rewrite K. reflexivity.
   Qed.
 
-  (* Last: mergeStats is associative and the row step is "merge with the one-row state", hence a homomorphism on
-     non-empty row lists (all that groupBy / rollup / cube ever merge) *)
-  Theorem last_laws_ne ign : agg_laws_ne (last_agg get ign) eq eq.
-  Proof.
-    apply monoid_laws_ne.
-    - intros s r. simpl. unfold last_step, last_merge. simpl.
-      destruct ign; simpl; auto. destruct (is_null (get r)) eqn:E; simpl; auto. rewrite E. reflexivity.
-    - intros a b c. simpl. unfold last_merge. destruct ign; simpl; auto.
-      destruct (is_null c) eqn:Ec; simpl; auto. rewrite Ec. reflexivity.
-  Qed.
-
-  (* with ignore_nulls the initial None is skipped by mergeStats: full laws *)
-  Theorem last_ign_laws : agg_laws (last_agg get true) eq eq.
+  (* Last: mergeStats is associative with the fresh copy as unit, the row step is "merge with the one-row state" *)
+  Theorem last_laws ign : agg_laws (last_agg get ign) eq eq.
   Proof.
     apply monoid_laws.
     - intros s r. simpl. unfold last_step, last_merge. simpl.
-      destruct (is_null (get r)) eqn:E; simpl; auto. rewrite E. reflexivity.
-    - intros a b c. simpl. unfold last_merge. simpl.
-      destruct (is_null c) eqn:Ec; simpl; auto. rewrite Ec. reflexivity.
+      destruct (ign && is_null (get r)) eqn:E; simpl; auto. rewrite E. reflexivity.
+    - intros a b c. simpl. unfold last_merge.
+      destruct c as [c|]; auto. destruct (ign && is_null c) eqn:Ec; auto.
+      destruct b as [b|]; [destruct (ign && is_null b)|]; rewrite ?Ec; reflexivity.
     - intros s. reflexivity.
   Qed.
 
@@ -465,30 +455,7 @@ Section FirstLastLaws.
         * rewrite last_last. reflexivity.
       + rewrite last_last. reflexivity.
   Qed.
-
-  (* the defect recorded as an open finding: without ignore_nulls a fresh copy is NOT a right unit of
-     mergeStats, so a pivot slot that stays empty in a later partial erases the value *)
-  Theorem last_init_r_refuted :
-    forall (r : Row), get r <> CNull ->
-      a_merge (last_agg get false) (a_fold (last_agg get false) [r]) (a_init (last_agg get false))
-      <> a_fold (last_agg get false) [r].
-  Proof.
-    intros r H E. apply H. unfold a_fold in E. simpl in E. unfold last_merge, last_step in E. simpl in E.
-    symmetry. exact E.
-  Qed.
-
-  Theorem last_laws_partial :
-    (forall ign, agg_laws_ne (last_agg get ign) eq eq) /\ agg_laws (last_agg get true) eq eq.
-  Proof. split; [exact last_laws_ne|exact last_ign_laws]. Qed.
 End FirstLastLaws.
-
-Theorem last_hom_full_refuted :
-  ~ (forall (Ops : NumOps) Row (get : Row -> @cell Ops) ign, agg_laws (last_agg get ign) eq eq).
-Proof.
-  intros H. pose proof (H FloatOps unit (fun _ => CNum (NI 1%Z)) false) as L.
-  pose proof (l_init_r L [tt]) as E. revert E.
-  apply (@last_init_r_refuted FloatOps unit (fun _ => CNum (NI 1%Z)) tt). discriminate.
-Qed.
 
 Theorem describe_agree (Ops : NumOps) (Q : NumSqrt Ops) (cols : list nat) (parts : list (list (@row Ops))) :
   run_describe cols parts =
